@@ -334,9 +334,13 @@ impl TurnClient {
                 socket.send_to(data, *server).await?;
             }
             TurnTransport::Tcp { write, .. } => {
-                let mut frame = Vec::with_capacity(2 + data.len());
-                frame.extend_from_slice(&(data.len() as u16).to_be_bytes());
-                frame.extend_from_slice(data);
+                // RFC 5766 §2.1 / §11.5: no extra framing on the connection to the TURN
+                // server — STUN messages are self-delimiting, ChannelData messages
+                // (first two bits 01) are padded to a multiple of four bytes.
+                let mut frame = data.to_vec();
+                if data.first().is_some_and(|b| b & 0xC0 == 0x40) {
+                    frame.resize(data.len().div_ceil(4) * 4, 0);
+                }
                 write.lock().await.write_all(&frame).await?;
             }
         }
@@ -363,21 +367,22 @@ impl TurnClient {
                 Ok(len)
             }
             TurnTransport::Tcp { read, .. } => {
-                let mut header = [0u8; 2];
+                // Delimit by the message's own length field: STUN = 20-byte header +
+                // attributes; ChannelData = 4-byte header + data, padded to four on TCP.
+                let mut header = [0u8; 4];
                 let mut stream = read.lock().await;
                 stream.read_exact(&mut header).await?;
-                let len = u16::from_be_bytes(header) as usize;
-                if len > buf.len() {
-                    bail!("TURN TCP frame exceeds receive buffer");
+                let body = u16::from_be_bytes([header[2], header[3]]) as usize;
+                let (len, on_wire) = if header[0] & 0xC0 == 0x40 {
+                    (4 + body, 4 + body.div_ceil(4) * 4)
+                } else {
+                    (20 + body, 20 + body)
+                };
+                if on_wire > buf.len() {
+                    bail!("TURN TCP message exceeds receive buffer");
                 }
-                let mut offset = 0;
-                while offset < len {
-                    let read = stream.read(&mut buf[offset..len]).await?;
-                    if read == 0 {
-                        bail!("TURN TCP stream closed");
-                    }
-                    offset += read;
-                }
+                buf[..4].copy_from_slice(&header);
+                stream.read_exact(&mut buf[4..on_wire]).await?;
                 Ok(len)
             }
         }
